@@ -32,8 +32,8 @@ Proof. intros Hl Ll. unfold lsf_frame. rewrite Ll.
   destruct (uninit_ok junk (conv_out_len 30)) as [U1 UL1].
   destruct (conv_encode_spec (uninit junk (conv_out_len 30)) lsf Hl) as [E1 [A1 L1]]; [lia | rewrite UL1, Ll; reflexivity|].
   rewrite Ll in L1. change (conv_out_len 30) with 61%nat in *.
-  destruct (uninit_ok junk C.lsf_punctured_len) as [U2 UL2]. change C.lsf_punctured_len with 46%nat in *.
-  change (matrix C.lsf_puncture_matrix) with make_p1.
+  destruct (uninit_ok junk ConstsModulator.lsf_punctured_len) as [U2 UL2]. change ConstsModulator.lsf_punctured_len with 46%nat in *.
+  change (matrix ConstsModulator.lsf_puncture_matrix) with make_p1.
   destruct (puncture_generic _ _ make_p1 SpecM17.P1 488 368 A1 U2) as [E2 [A2 [L2 _]]];
     [rewrite L1; reflexivity | rewrite UL2; reflexivity | exact puncture_idx_lsf |].
   rewrite UL2 in L2. rewrite spec_finish_bytes by assumption. rewrite E2, E1. reflexivity. Qed.
@@ -49,8 +49,8 @@ Theorem make_payload_spec fnraw payload : all_bytes payload -> length payload = 
   bytes_bits (make_payload junk fnraw payload) = spec_puncture SpecM17.P2 (spec_conv (bytes_bits (be_bytes 2 fnraw ++ payload)))
   /\ all_bytes (make_payload junk fnraw payload) /\ length (make_payload junk fnraw payload) = 34%nat.
 Proof. intros Hp Lp. unfold make_payload.
-  destruct (uninit_ok junk C.payload_message_len) as [U0 UL0]. change C.payload_message_len with 18%nat in *.
-  change C.payload_offset with 2%nat. rewrite message_bytes by assumption.
+  destruct (uninit_ok junk ConstsModulator.payload_message_len) as [U0 UL0]. change ConstsModulator.payload_message_len with 18%nat in *.
+  change ConstsModulator.payload_offset with 2%nat. rewrite message_bytes by assumption.
   assert (Ed : u8 (N.land (N.shiftr fnraw 8) 255) :: u8 (N.land fnraw 255) :: payload = be_bytes 2 fnraw ++ payload).
   { rewrite be_bytes2. rewrite !u8_small by apply land255_lt. reflexivity. }
   rewrite Ed. set (data := be_bytes 2 fnraw ++ payload).
@@ -59,16 +59,16 @@ Proof. intros Hp Lp. unfold make_payload.
   rewrite Ld. destruct (uninit_ok junk (conv_out_len 18)) as [U1 UL1].
   destruct (conv_encode_spec (uninit junk (conv_out_len 18)) data Hd) as [E1 [A1 L1]]; [lia | rewrite UL1, Ld; reflexivity|].
   rewrite Ld in L1. change (conv_out_len 18) with 37%nat in *.
-  destruct (uninit_ok junk C.payload_len) as [U2 UL2]. change C.payload_len with 34%nat in *.
-  change (matrix C.payload_puncture_matrix) with ImplModulator.P2.
+  destruct (uninit_ok junk ConstsModulator.payload_len) as [U2 UL2]. change ConstsModulator.payload_len with 34%nat in *.
+  change (matrix ConstsModulator.payload_puncture_matrix) with ImplModulator.P2.
   destruct (puncture_generic _ _ ImplModulator.P2 SpecM17.P2 296 272 A1 U2) as [E2 [A2 [L2 _]]];
     [rewrite L1; reflexivity | rewrite UL2; reflexivity | exact puncture_idx_stream |].
   rewrite UL2 in L2. rewrite E2, E1. repeat split; assumption. Qed.
 
 Theorem send_audio_frame_spec lich data : all_bytes lich -> length lich = 12%nat -> all_bytes data -> length data = 34%nat ->
-  send_audio_frame junk lich data = C.sync_stream ++ bits_bytes (spec_finish (bytes_bits lich ++ bytes_bits data)).
+  send_audio_frame junk lich data = ConstsModulator.sync_stream ++ bits_bytes (spec_finish (bytes_bits lich ++ bytes_bits data)).
 Proof. intros Hl Ll Hd Ld. unfold send_audio_frame, output_frame. f_equal.
-  destruct (uninit_ok junk C.audio_frame_temp_len) as [U UL]. change C.audio_frame_temp_len with 46%nat in *.
+  destruct (uninit_ok junk ConstsModulator.audio_frame_temp_len) as [U UL]. change ConstsModulator.audio_frame_temp_len with 46%nat in *.
   rewrite copy_at_two by (rewrite UL, Ll, Ld; reflexivity).
   rewrite spec_finish_bytes; [rewrite bytes_bits_app; reflexivity | apply Forall_app; split; assumption | rewrite app_length, Ll, Ld; reflexivity]. Qed.
 
@@ -88,7 +88,7 @@ Proof. intros H. apply Forall_forall. intros x Hx. unfold all_bytes in H. rewrit
 Theorem build_lich_spec lsf i : all_bytes lsf -> length lsf = 30%nat -> (i < 6)%nat ->
   bytes_bits (nth i (build_lich junk lsf) []) = spec_lich lsf (N.of_nat i)
   /\ all_bytes (nth i (build_lich junk lsf) []) /\ length (nth i (build_lich junk lsf) []) = 12%nat.
-Proof. intros Hl Ll Hi. unfold build_lich. change C.lich_count with 6%nat. change C.lich_chunk_len with 5%nat.
+Proof. intros Hl Ll Hi. unfold build_lich. change ConstsModulator.lich_count with 6%nat. change ConstsModulator.lich_chunk_len with 5%nat.
   assert (E : nth i (map (fun i0 : nat => make_lich_segment junk (firstn 5 (skipn (i0 * 5) lsf)) (u8 (N.of_nat i0))) (seq 0 6)) []
               = make_lich_segment junk (firstn 5 (skipn (i * 5) lsf)) (u8 (N.of_nat i))).
   { destruct i as [|[|[|[|[|[|i]]]]]]; try lia; reflexivity. }
@@ -105,7 +105,7 @@ Proof. unfold build_lich. rewrite map_length, seq_length. reflexivity. Qed.
 Theorem stream_frame_bytes lsf n fnraw payload : all_bytes lsf -> length lsf = 30%nat -> (n < 6)%nat ->
   all_bytes payload -> length payload = 16%nat ->
   send_audio_frame junk (nth n (build_lich junk lsf) []) (make_payload junk fnraw payload) =
-  C.sync_stream ++ bits_bytes (spec_finish (spec_lich lsf (N.of_nat n) ++
+  ConstsModulator.sync_stream ++ bits_bytes (spec_finish (spec_lich lsf (N.of_nat n) ++
                                             spec_puncture SpecM17.P2 (spec_conv (bytes_bits (be_bytes 2 fnraw ++ payload))))).
 Proof. intros Hl Ll Hn Hp Lp. destruct (build_lich_spec lsf n Hl Ll Hn) as [E1 [A1 L1]].
   destruct (make_payload_spec fnraw payload Hp Lp) as [E2 [A2 L2]].
@@ -113,11 +113,11 @@ Proof. intros Hl Ll Hn Hp Lp. destruct (build_lich_spec lsf n Hl Ll Hn) as [E1 [
 End Frames.
 
 (** ** the frame-number field *)
-Lemma fn_sweep : below 15 (fun fn => (u16 (N.lor fn C.eos_mask) =? fn mod 32768 + 32768) && (fn mod 32768 + 0 =? fn)) = true.
+Lemma fn_sweep : below 15 (fun fn => (u16 (N.lor fn ConstsModulator.eos_mask) =? fn mod 32768 + 32768) && (fn mod 32768 + 0 =? fn)) = true.
 Proof. vm_cast_no_check (eq_refl true). Qed.
 Lemma fn_field_plain fn : fn < 32768 -> be_bytes 2 fn = fn_field fn false.
 Proof. intros H. pose proof (below_spec 15 _ fn_sweep fn H) as S. apply andb_prop in S. destruct S as [_ S].
   apply N.eqb_eq in S. unfold fn_field. rewrite S. reflexivity. Qed.
-Lemma fn_field_eos fn : fn < 32768 -> be_bytes 2 (u16 (N.lor fn C.eos_mask)) = fn_field fn true.
+Lemma fn_field_eos fn : fn < 32768 -> be_bytes 2 (u16 (N.lor fn ConstsModulator.eos_mask)) = fn_field fn true.
 Proof. intros H. pose proof (below_spec 15 _ fn_sweep fn H) as S. apply andb_prop in S. destruct S as [S _].
   apply N.eqb_eq in S. unfold fn_field. rewrite S. reflexivity. Qed.
